@@ -102,6 +102,7 @@ func Load(repo string, opt LoadOptions) (*Program, error) {
 	p.Renamed = renamed
 	p.Normalise(opt.Baseline)
 	p.InlineNewHelpers(opt.Baseline)
+	p.installNilPreserving()
 	return p, nil
 }
 
